@@ -527,10 +527,15 @@ Definition rebase_one (s : state) (o : rebase_opts) (x : nat) : res state :=
     if should_abandon then Ok (set_pm s (pm_set x (Abandoned np') (s_pm s)))
     else Ok (fst (write_commit s (mk_commit np' (c_change c) (c_desc c) empty' [x]) (Some x))).
 
-Definition rebase_descendants (s : state) (o : rebase_opts) : res state :=
+Definition rebase_fold (o : rebase_opts) (order : list nat) (s : state) : res state :=
+  fold_left (fun (acc : res state) x => do s0 <- acc; rebase_one s0 o x) order (Ok s).
+(** The loop of transform_commits, before the references are updated. *)
+Definition rebase_loop (s : state) (o : rebase_opts) : res state :=
   let T := find_descendants_for_rebase s (o_imm o) in
   do order <- order_commits_for_rebase (s_g s) (s_pm s) T;
-  do s1 <- fold_left (fun (acc : res state) x => do s0 <- acc; rebase_one s0 o x) order (Ok s);
+  rebase_fold o order s.
+Definition rebase_descendants (s : state) (o : rebase_opts) : res state :=
+  do s1 <- rebase_loop s o;
   do s2 <- update_rewritten_references s1 (o_delete_abandoned o);
   Ok (set_pm s2 []).
 
